@@ -11,6 +11,7 @@ use crate::sim::{log, Rng};
 use serde::{Deserialize, Serialize};
 use shuttle::sync::atomic::{AtomicU64, Ordering};
 use shuttle::sync::mpsc;
+use shuttle_engine::future::batch_semaphore::{BatchSemaphore, Fairness, TryAcquireError};
 use shuttle::sync::{Barrier, Condvar, Mutex, MutexGuard, Once, RwLock, RwLockReadGuard, RwLockWriteGuard};
 use shuttle::thread;
 use std::sync::Arc;
@@ -53,6 +54,14 @@ pub enum Op {
     Sleep,
     Spin,
     Rand(u64),
+    /// BatchSemaphore (engine level): blocking acquire of n permits
+    SemAcquire(usize, usize),
+    SemTry(usize, usize),
+    SemRelease(usize, usize),
+    SemClose(usize),
+    /// create an Acquire future for n permits, poll it `polls` (1 or 2) times with a scheduling
+    /// point in between, then drop it unfinished (cancellation); if it completes it is released
+    SemCancel(usize, usize, usize),
     ResetSteps,
     /// access thread-local key k (0..3) of the static pool
     TlsWith(usize),
@@ -91,6 +100,9 @@ pub struct Resources {
     pub chans: Vec<Option<usize>>,
     /// body that owns the receiver of channel i
     pub rx_owner: Vec<usize>,
+    /// engine-level BatchSemaphores: (initial permits, strictly fair?)
+    #[serde(default)]
+    pub sems: Vec<(usize, bool)>,
 }
 
 #[derive(Clone, Debug, PartialEq, Eq, Serialize, Deserialize, Default)]
@@ -198,6 +210,7 @@ pub struct Ctx {
     barriers: Vec<Barrier>,
     onces: Vec<Once>,
     atomics: Vec<AtomicU64>,
+    sems: Vec<BatchSemaphore>,
     tx: Vec<Vec<StdMutex<Option<Tx>>>>,
     rx: Vec<StdMutex<Option<mpsc::Receiver<u64>>>>,
     parent_thread: Vec<StdMutex<Option<thread::Thread>>>,
@@ -288,6 +301,7 @@ impl Ctx {
             barriers: r.barriers.iter().map(|n| Barrier::new(*n)).collect(),
             onces: (0..r.onces).map(|_| Once::new()).collect(),
             atomics: (0..r.atomics).map(|_| AtomicU64::new(0)).collect(),
+            sems: r.sems.iter().map(|(n, fair)| BatchSemaphore::new(*n, if *fair { Fairness::StrictlyFair } else { Fairness::Unfair })).collect(),
             tx,
             rx,
             parent_thread: (0..nb).map(|_| StdMutex::new(None)).collect(),
@@ -901,6 +915,68 @@ fn exec_op(l: &mut Local, label: &str, uv: u64, op: &Op) {
             let v = shuttle::rand::thread_rng().next_u64();
             (v % (*bound).max(1)).to_string()
         }
+        Op::SemAcquire(sm, n) => {
+            let r = ctx.sems[*sm].acquire_blocking(*n);
+            format!("{}:{}", if r.is_ok() { "ok" } else { "err" }, ctx.sems[*sm].available_permits())
+        }
+        Op::SemTry(sm, n) => {
+            let r = ctx.sems[*sm].try_acquire(*n);
+            let tag = match r {
+                Ok(()) => "ok",
+                Err(TryAcquireError::NoPermits) => "nopermits",
+                Err(TryAcquireError::Closed) => "closed",
+            };
+            format!("{}:{}", tag, ctx.sems[*sm].available_permits())
+        }
+        Op::SemRelease(sm, n) => {
+            ctx.sems[*sm].release(*n);
+            ctx.sems[*sm].available_permits().to_string()
+        }
+        Op::SemClose(sm) => {
+            ctx.sems[*sm].close();
+            ctx.sems[*sm].available_permits().to_string()
+        }
+        Op::SemCancel(sm, n, polls) => {
+            use std::future::Future;
+            use std::task::{Context, Poll};
+            let sem = &ctx.sems[*sm];
+            let mut fut = Box::pin(sem.acquire(*n));
+            let waker = futures::task::noop_waker();
+            let mut cx = Context::from_waker(&waker);
+            let mut outcome: Option<bool> = None;
+            for k in 0..(*polls).max(1) {
+                if k > 0 {
+                    // a scheduling point without a yield request
+                    thread::sleep(std::time::Duration::from_millis(1));
+                }
+                match fut.as_mut().poll(&mut cx) {
+                    Poll::Ready(Ok(())) => {
+                        outcome = Some(true);
+                        break;
+                    }
+                    Poll::Ready(Err(_)) => {
+                        outcome = Some(false);
+                        break;
+                    }
+                    Poll::Pending => {}
+                }
+            }
+            match outcome {
+                Some(true) => {
+                    drop(fut);
+                    sem.release(*n);
+                    format!("acquired:{}", sem.available_permits())
+                }
+                Some(false) => {
+                    drop(fut);
+                    format!("err:{}", sem.available_permits())
+                }
+                None => {
+                    drop(fut);
+                    format!("cancelled:{}", sem.available_permits())
+                }
+            }
+        }
         Op::ResetSteps => {
             shuttle::current::reset_step_count();
             "".into()
@@ -982,6 +1058,8 @@ pub struct GenCfg {
     pub info: bool,
     #[serde(default)]
     pub reset: bool,
+    #[serde(default)]
+    pub sem: bool,
 }
 
 impl GenCfg {
@@ -1008,6 +1086,7 @@ impl GenCfg {
             scope: false,
             info: false,
             reset: false,
+            sem: false,
         }
     }
     pub fn none() -> Self {
@@ -1033,6 +1112,7 @@ impl GenCfg {
             scope: false,
             info: false,
             reset: false,
+            sem: false,
         }
     }
     /// swarm: enable each family with probability 1/2 (at least one)
@@ -1087,6 +1167,12 @@ pub fn gen_program(rng: &mut Rng, cfg: &GenCfg) -> Program {
     }
     if cfg.atomic {
         res.atomics = rng.range(1, 2);
+    }
+    if cfg.sem {
+        res.sems.push((rng.below(4), rng.chance(1, 2)));
+        if rng.chance(1, 4) {
+            res.sems.push((rng.below(3), rng.chance(1, 2)));
+        }
     }
     if cfg.chan {
         let n = 1;
@@ -1259,6 +1345,9 @@ fn gen_op(
     if cfg.rand {
         kinds.push(13);
     }
+    if !res.sems.is_empty() {
+        kinds.extend([19, 19, 19, 19]);
+    }
     if cfg.tls {
         kinds.extend([15, 15]);
     }
@@ -1386,6 +1475,23 @@ fn gen_op(
         16 => ops.push(if rng.chance(1, 2) { Op::LazyGet(rng.below(2)) } else { Op::StaticOnce(rng.below(2)) }),
         17 => ops.push(Op::ThreadInfo),
         18 => ops.push(Op::ResetSteps),
+        19 => {
+            let sm = rng.below(res.sems.len());
+            let n = 1 + rng.below(3);
+            ops.push(match rng.below(12) {
+                0 | 1 | 2 | 3 => Op::SemAcquire(sm, n),
+                4 | 5 => Op::SemTry(sm, n),
+                6 | 7 | 8 => Op::SemRelease(sm, n),
+                9 | 10 => Op::SemCancel(sm, n, 1 + rng.below(2)),
+                _ => {
+                    if rng.chance(1, 3) {
+                        Op::SemClose(sm)
+                    } else {
+                        Op::SemRelease(sm, n)
+                    }
+                }
+            });
+        }
         _ => unreachable!(),
     }
 }
